@@ -32,7 +32,9 @@ def scenario(recs, kind, seed, ipv, opts=()):
     for d in "cs":
         cuts[d] |= {s for s, _, _ in record_spans(c, d)}
     cd["cuts"] = {d: sorted(v) for d, v in cuts.items()}
-    return dict(conns=[cd], opts=list(opts), duplex=(seed if seed % 2 else 0))
+    # every third capture also holds what real captures hold besides the connection (wire/zoo.py: ARP, ICMP, fragments, VLAN tags,
+    # control segments, other transports, runts and truncated frames)
+    return dict(conns=[cd], opts=list(opts), duplex=(seed if seed % 2 else 0), zoo=(seed if seed % 3 == 0 else 0))
 
 
 def _one(sc):
